@@ -3,15 +3,15 @@ CHECK_DEADLOCK FALSE
 VIEW view
 INVARIANTS C03
 CONSTANTS
-  Streams <- StreamsAB
-  Script <- ScriptAB
+  Streams <- Streams2H
+  Script <- Script2H
   Floor = 0
-  AtomicSend = FALSE
+  AtomicSend = TRUE
   TickFix = TRUE
   SwallowAllowed = TRUE
-  Seek <- SeekNone
-  CollOf <- CollOf3
+  Seek <- Seek2H
+  CollOf <- CollOf2H
   JoinLifts = TRUE
   StartAllFirst = TRUE
-  PChanOf <- PChanSame
+  PChanOf <- PChan2H
   InitRaises = TRUE
